@@ -9,7 +9,7 @@ On break: harness `oracle` evaluates the property's clauses directly on the real
 import os
 
 THEOREMS = ["IstioModel.C13.Theorems"]
-STREAMS = ("index",)
+STREAMS = ("index", "sched")
 
 
 def case_of(ctx, ops, i):
@@ -18,6 +18,19 @@ def case_of(ctx, ops, i):
     s = starts[i]
     e = starts[i + 1] if i + 1 < len(starts) else len(lines)
     return lines[s:e]
+
+
+def fingerprint(stream, clause):
+    # the concurrent clauses are about the index as well; F4's class has a stable name
+    return "index:%s" % clause if stream == "sched" else "%s:%s" % (stream, clause)
+
+
+WHAT = {
+    "lost-update:unlink-inside-update-window":
+        "UpdateServiceEndpoints writes to an EndpointShards that a concurrent DeleteServiceShard/DeleteShard/PruneShard "
+        "unlinked between the update's lookup and its ep.Lock(): the registry's report is lost although every sequential "
+        "order keeps it (F4)",
+}
 
 
 def oracle(ctx, stream, case_lines, rep):
@@ -38,8 +51,8 @@ def oracle(ctx, stream, case_lines, rep):
         for i, v in enumerate(ctx.read_lines(out)):
             if v.startswith("FAIL"):
                 clause = v.split()[1]
-                return ("%s:%s" % (stream, clause),
-                        "endpoint index (%s) violates clause '%s' on the real code" % (stream, clause),
+                return (fingerprint(stream, clause),
+                        WHAT.get(clause, "endpoint index (%s) violates clause '%s' on the real code" % (stream, clause)),
                         {"stream": stream, "ops": case_of(ctx, ops, i), "oracle_verdict": v, "correspondence": rep})
     return None
 
@@ -59,12 +72,20 @@ def run(ctx):
     if not ctx.go_build():
         return
     ctx.diff_stream("index", ctx.n(1500, 30000), oracle=oracle)
+    # real goroutines parked / released at the verif gates in scripted orders vs the lock-region model
+    ctx.diff_stream("sched", ctx.n(1500, 30000), oracle=oracle)
+    # the oracle also runs on the corpus of every stream (the F4 witnesses live there)
+    cdir = os.path.join(os.path.dirname(os.path.dirname(os.path.abspath(__file__))), "harness", "corpus", ctx.pid)
+    extra = []
+    if os.path.isdir(cdir):
+        for f in sorted(os.listdir(cdir)):
+            if f.endswith(".ops"):
+                extra.append((f.split(".")[0], os.path.join(cdir, f)))
     # the oracle also runs on every generated case (second line, independent of the model)
-    for stream in STREAMS:
-        g = os.path.join(ctx.work, "%s.gen.ops" % stream)
+    for stream, g in extra + [(st, os.path.join(ctx.work, "%s.gen.ops" % st)) for st in STREAMS]:
         if not os.path.exists(g):
             continue
-        out = g + ".verdict"
+        out = os.path.join(ctx.work, os.path.basename(g) + ".verdict")
         rc, log = ctx.harness("oracle", stream, g, out)
         if rc != 0 or not os.path.exists(out):
             ctx.tie_broken("oracle-run:%s" % stream, log)
@@ -74,8 +95,8 @@ def run(ctx):
         for i, v in enumerate(verdicts):
             if v.startswith("FAIL"):
                 clause = v.split()[1]
-                ctx.violation("%s:%s" % (stream, clause),
-                              "endpoint index (%s) violates clause '%s' on the real code" % (stream, clause),
+                ctx.violation(fingerprint(stream, clause),
+                              WHAT.get(clause, "endpoint index (%s) violates clause '%s' on the real code" % (stream, clause)),
                               {"stream": stream, "ops": case_of(ctx, g, i), "oracle_verdict": v}, True)
 
 
